@@ -100,13 +100,13 @@ META = {
     "C19": {
         "engine": "harness_v2",
         "technique": "three-way differential property testing (v2 vs v1 vs independent reference) over generated histories and option grids",
-        "level_text": "Exploration: the same generated normal-form history is applied to the SQLite-backed v2 tree, to v1 on MemDB and to the reference; every commit hash must agree three ways, and v2's lookups, existence tests, size, height and forward / inclusive / reverse iterators must agree with the versioned-map model before and after each commit, across checkpoint interval, height filter, eviction depth and sharding.",
+        "level_text": "Exploration: the same generated normal-form history is applied to the SQLite-backed v2 tree, to v1 on MemDB and to the reference; every commit hash must agree three ways, and v2's lookups, existence tests, size, height and forward / inclusive / reverse iterators must agree with the versioned-map model before and after each commit (iterators also on the uncommitted working state), across checkpoint interval, forced checkpoints, checkpoint memory, height filter, eviction depth and sharding, with length-boundary keys and values.",
         "level_note": _TB + "v2's writer goroutines exit the process on an internal error; the harness' logger prints the VIOLATION line with the current case first.",
     },
     "C20": {
         "engine": "harness_v2",
         "technique": "round-trip property testing of persistence: close / reopen / LoadVersion of every retained target, continuation, pruning, snapshots, against the reference",
-        "level_text": "Exploration: after closing, every retained version is reloaded (checkpoint read + change-log replay) and compared with the reference hash and the model contents; the history is continued from the reloaded latest version; pruning mid-history must keep the latest version and everything from the last checkpoint not after n loadable; snapshots (table written by SaveSnapshot, and pre-/post-order node streams ingested into a fresh database) must import to the version's hash and contents.",
-        "level_note": _TB + "F14 (leaves that stay in memory after a replayed load had no value) was repaired; values are checked for every target. The harness waits for v2's background prune passes (reported through the logger) before Close and takes no snapshot after DeleteVersionsTo (v2 exits the process otherwise); with CheckpointMemory the checkpoint positions are not known to the harness, so that option is never combined with pruning.",
+        "level_text": "Exploration: after closing, every retained version is reloaded (checkpoint read + change-log replay) and compared with the reference hash and the model contents; the history is continued from the reloaded latest version; pruning mid-history must keep the latest version and everything from the last checkpoint not after n loadable; snapshots (table written by SaveSnapshot, pre-/post-order node streams generated from the reference, and the real Tree.Export stream of a reloaded version ingested into a fresh database) must import to the version's hash and contents; Tree.Export of every reloaded version equals the reference traversal in both orders; a copy of the database rolled back with SqliteDb.Revert to any retained version and continued with other writes behaves like a history that ended there.",
+        "level_note": _TB + "F14 (leaves that stay in memory after a replayed load had no value) and F30 (Revert kept the branch rows of reverted versions in an unsharded tree table) were repaired; values are checked for every target. Continuing from an OLDER version is only exercised through Revert (LoadVersion of an older version followed by SaveVersion on the same rows is not a supported use of v2). The harness waits for v2's background prune passes (reported through the logger) before Close and takes no snapshot after DeleteVersionsTo (v2 exits the process otherwise); with CheckpointMemory the checkpoint positions are not known to the harness, so that option is never combined with pruning.",
     },
 }
